@@ -17,8 +17,8 @@ ID = 'C04'
 LEAN_MODULE = 'PlasVerif.Properties.C04'
 LEVEL_TEXT = ('Lean 4 theorems over a line-by-line model of the context stack (ContextItem chained lookup, push/pop incl. the pop-until rules, addGlobal/addLocal, let/get_let, '
               'copy-on-write catcodes, define-on-miss lookup): for EVERY balanced history (any nesting of anonymous groups and object-pushed frames, any local/global operations) run on any stack, '
-              'the stack depth is unchanged, every enclosing frame is untouched, the categories and lets in force are back, and the only surviving effect is a set of global definitions '
-              '(group_restores / depth_balanced / catcode_local / def_local / let_local / gdef_survives / lookup_innermost / pop_obj_exact). '
+              'the stack depth is unchanged, the categories in force are back, and the only surviving effect is a change Delta: global definitions / global aliases added to the global frame and the local meanings of globally assigned names (\\gdef, \\global\\let) dropped at every level '
+              '(group_restores / depth_balanced / catcode_local / def_local / let_local / gdef_survives / gdef_replaces_every_level / glet_replaces_every_level / glet_survives / lookup_innermost / pop_obj_exact). '
               'The model is tied to the real Context by exhaustive short and random long operation histories with a full state dump after every operation, '
               'and the document level (who pushes/pops: groups, environments, math, tabular cells, arguments) by generated balanced documents.')
 LEVEL_NOTE = ('Trusted: Lean kernel, correspondence harness (object pool of 6 objects, 3 names, 4 characters), the Python scoping oracle used for prop_ok/search. '
@@ -27,9 +27,9 @@ TECHNIQUE = 'Lean 4 proof (induction over balanced operation histories, frame in
 TRUSTED = ['python oracle harness/props/c04.py:ScopeOracle (abstract scoping semantics for balanced histories)']
 ASSUMPTIONS = ['objects pushed in balanced histories are not document-level (a document-level push resets the stack by design)',
                'category codes 0..15']
-RULE = ('exhaustive: every history of length <= L over 27 concrete operations (L=3 quick, 4 thorough); seeded: random histories up to length 60, half of them balanced by construction; '
+RULE = ('exhaustive: every history of length <= L over 31 concrete operations (L=3 quick, 4 thorough); seeded: random histories up to length 60, half of them balanced by construction; '
         'non-trivial = history contains a push, a pop and at least one definition/let/catcode operation; distinct = distinct request line')
-EXHAUSTIVE = {'quick': 'all histories of length <= 3 over the 27-operation alphabet', 'thorough': 'all histories of length <= 4 over the 27-operation alphabet'}
+EXHAUSTIVE = {'quick': 'all histories of length <= 3 over the 31-operation alphabet', 'thorough': 'all histories of length <= 4 over the 31-operation alphabet'}
 CASE_TIMEOUT = 30
 
 logging.disable(logging.CRITICAL)
@@ -42,7 +42,7 @@ POOLW = ' '.join('o:%d:%d:%d:%d:%d:%s' % (i, p, t, me, dl, ','.join(str(ord(c)) 
 NAMES, LETS, CHARS = [1, 2, 3], [1, 2], [64, 92, 37, 97]
 
 OPS = ['pu:0', 'pu:1', 'pu:2', 'pu:6:1=20', 'pu:5', 'po:0', 'po:1', 'po:2', 'po:3', 'po:4', 'po:6',
-       'ag:1:10', 'ag:2:11', 'gd:1:30', 'gd:2:31', 'al:1:12', 'al:2:13', 'lc:1:2', 'lc:3:1', 'lt:1:65', 'lt:2:66',
+       'ag:1:10', 'ag:2:11', 'gd:1:30', 'gd:2:31', 'al:1:12', 'al:2:13', 'lc:1:2', 'lc:3:1', 'lt:1:65', 'lt:2:66', 'gl:1:2', 'gl:3:1', 'gt:1:67', 'gt:2:68',
        'sc:64:11', 'sc:92:12', 'sc:97:14', 'sv', 'lk:1', 'lk:3']
 LOCAL_OPS = [o for o in OPS if not o.startswith(('pu', 'po'))]
 
@@ -127,7 +127,7 @@ def corpus():
 
 def nontrivial(o):
     ws = o.case.line.split('|')[1].split()
-    return any(w.startswith('pu') for w in ws) and any(w.startswith('po') for w in ws) and any(w[:2] in ('ag', 'gd', 'al', 'lc', 'lt', 'sc', 'sv') for w in ws)
+    return any(w.startswith('pu') for w in ws) and any(w.startswith('po') for w in ws) and any(w[:2] in ('ag', 'gd', 'al', 'lc', 'lt', 'gl', 'gt', 'sc', 'sv') for w in ws)
 
 
 # ---------------------------------------------------------------- implementation side
@@ -205,6 +205,8 @@ def apply_op(ctx, objs, w):
     elif f[0] == 'al': ctx.addLocal('n' + f[1], c['val'](int(f[1]), int(f[2])))
     elif f[0] == 'lc': ctx.let(EscapeSequence('n' + f[1]), EscapeSequence('n' + f[2]))
     elif f[0] == 'lt': ctx.let(EscapeSequence('n' + f[1]), Letter(chr(int(f[2]))))
+    elif f[0] == 'gl': ctx.let(EscapeSequence('n' + f[1]), EscapeSequence('n' + f[2]), local=False)      # \global\let\a=\b
+    elif f[0] == 'gt': ctx.let(EscapeSequence('n' + f[1]), Letter(chr(int(f[2]))), local=False)          # \global\let\a=<char>
     elif f[0] == 'sc': ctx.catcode(chr(int(f[1])), int(f[2]))
     elif f[0] == 'sv': ctx.setVerbatimCatcodes()
     elif f[0] == 'lk': ctx['n' + f[1]]
@@ -258,6 +260,13 @@ class ScopeOracle:
             elif f[0] == 'lk': self.lookup(int(f[1]))
             elif f[0] == 'lc': self.scopes[-1]['m'][int(f[1])] = self.lookup(int(f[2]))
             elif f[0] == 'lt': self.scopes[-1]['l'][int(f[1])] = f[2]
+            elif f[0] in ('gl', 'gt'):
+                # \global\let: the new meaning holds at every level, the local meanings (macro or token alias) are discarded
+                v = self.lookup(int(f[2])) if f[0] == 'gl' else None
+                for sc in self.scopes[1:]:
+                    sc['m'].pop(int(f[1]), None); sc['l'].pop(int(f[1]), None)
+                if f[0] == 'gl': self.scopes[0]['m'][int(f[1])] = v
+                else: self.scopes[0]['l'][int(f[1])] = f[2]
             elif f[0] == 'sc': self.cat[-1][int(f[1])] = int(f[2])
             elif f[0] == 'sv':
                 self.verb[-1] = True; self.cat[-1] = {}
@@ -459,11 +468,19 @@ class DocGen:
             self.src.append('\\def\\p%s{%s}' % ('abc'[k - 1], w)); self.scopes[-1][k] = w
         elif r < 0.55:
             w = self.word()
-            self.src.append('\\gdef\\p%s{%s}' % ('abc'[k - 1], w))
+            self.src.append(self.rng.choice(['\\gdef', '\\global\\def', '\\global\\long\\def']) + '\\p%s{%s}' % ('abc'[k - 1], w))
             # \gdef replaces the meaning at every group level (TeX: a global assignment discards the local values)
             for sc in self.scopes:
                 sc.pop(k, None)
             self.scopes[0][k] = w
+        elif r < 0.58:
+            # \global\let: like \gdef, the alias holds at every level and survives the groups
+            j = self.rng.randint(1, 3)
+            m = self.meaning(j)
+            self.src.append('\\global\\let\\p%s=\\p%s ' % ('abc'[k - 1], 'abc'[j - 1]))
+            for sc in self.scopes:
+                sc.pop(k, None)
+            self.scopes[0][k] = m
         elif r < 0.65:
             j = self.rng.randint(1, 3)
             self.src.append('\\let\\p%s=\\p%s ' % ('abc'[k - 1], 'abc'[j - 1])); self.scopes[-1][k] = self.meaning(j)
@@ -576,10 +593,22 @@ def check_doc(src, exp):
     return None, r
 
 
+# minimized past failures, run first (D59: \global was a no-op prefix)
+WITNESS_DOCS = [('\\def\\pa{A}\\def\\pb{B}{\\global\\let\\pa=\\pb}\\pa', 'B'),
+                ('\\def\\pa{A}{\\global\\def\\pa{G}}\\pa', 'G'),
+                ('\\def\\pa{A}{\\def\\pa{L}{\\global\\long\\def\\pa{G}}\\pa}\\pa', 'GG')]
+
+
 def extra_checks(ctx):
     rng = _random.Random(ctx.seed * 7 + 11)
     n = 400 if ctx.tier == 'quick' else 6000
     viol, samples, distinct = [], [], set()
+    for src, exp in WITNESS_DOCS:
+        why, r = check_doc(src, exp)
+        if why:
+            viol.append(Violation('document level: ' + why, {'kind': 'failing-input', 'extra': {'document': src, 'expected_text': exp},
+                                                             'observed': r, 'why': why}))
+            return viol, {'evaluations': len(WITNESS_DOCS), 'distinct_nontrivial': 0, 'samples': [], 'stream': 'ctxdoc'}
     for i in range(n):
         src, exp = DocGen(rng).make()
         why, r = check_doc(src, exp)
